@@ -304,6 +304,9 @@ def check(tier, seed):
         for v in r["viol"]:
             rep.violate(v["mechanism"], v["message"], {"case": v["case"]})
     rep.extra["combine_sts_lts_wrapper_hits"] = hits
+    from vf.props import pool_common as _PC
+
+    _PC.add_workload_monitor_results(rep, PROP, tier, seed)
     rep.extra["interpolation_family_sizes_seen"] = sorted(fam)
     rep.extra["short_time_points_kept_seen"] = sorted(kept)[:40]
     rep.extra["fls_oracle_selfcheck_vs_quad"] = worst_self
